@@ -47,7 +47,7 @@ def main():
                           'add(x, w), batch_add([x], w) and batch_add of whole lists with repeated and colliding items) are driven by seeded streams; every update is recorded with the real '
                           'query() of every seen item and of an unseen one and the row sums, and validated by TraceCMS.tla against the ghosts truth/total.  non-trivial = distinct streams in which two items '
                           'collide in some row or a weight 0 occurs')
-    V.assumptions += ['counts stay far below the int32 range of the sketch matrix', 'the inductive (unbounded-stream) argument is for the model CMS.tla / CMSInductive.tla; the real class is bound to it by the replayed and validated streams']
+    V.assumptions += ['accumulated weights stay below the int32 range of the sketch matrix (heavy-hitter streams reach 2^25, the rest stay small)', 'the inductive (unbounded-stream) argument is for the model CMS.tla / CMSInductive.tla; the real class is bound to it by the replayed and validated streams']
     CINV = ['NeverUnder', 'NeverOverTotal', 'RowSumsAreTotal']
     Vt = E.Verdict(PID, tier, seed)
     r, _ = run_spec(Vt, 'deviation', consts(2, 2, 2, '{1}', 3, dev=True), 'NextCMS', CINV)
@@ -138,6 +138,13 @@ def main():
             stream = [[[rng.choice(items) for _ in range(rng.choice([0, 1, 2, 3, 4, 8]))], rng.choice([0, 1, 1, 2, 3, 100])] for _ in range(rng.randrange(3, 20))]
         else:
             stream = [[rng.choice(items), rng.choice([0, 1, 1, 1, 2, 5, 100])] for _ in range(rng.randrange(5, 40))]
+        if k % 8 == 7:
+            # a heavy hitter: one bulk update of 2^24 or more (well inside the 32-bit cell range), then unit updates
+            hv = rng.choice([2 ** 24, 20_000_000, 2 ** 25 + 1])
+            if via == 'batch':
+                stream = [[[items[0]], hv]] + [[[rng.choice(items[:2])], 1] for _ in range(12)]
+            else:
+                stream = [[items[0], hv]] + [[rng.choice(items[:2]), 1] for _ in range(12)]
         jobs.append({'op': 'cms_stream', 'depth': depth, 'width': width, 'npseed': rng.randrange(2 ** 31), 'stream': stream, 'unseen': unseen,
                      'via': via})
     got = PC.pipe_eval(jobs, modules=['sketch_ops'])
